@@ -105,7 +105,7 @@ func safeRun(f *family, lhs string) (obs string) {
 
 func main() {
 	if len(os.Args) < 5 {
-		fmt.Fprintln(os.Stderr, "usage: harness gen <family> <outfile> <seed> <tier> | harness replay <family> <infile> <outfile>")
+		fmt.Fprintln(os.Stderr, "usage: harness gen <family> <outfile> <seed> <tier> | harness cases <family> <outfile> <seed> <tier> | harness replay <family> <infile> <outfile>")
 		os.Exit(2)
 	}
 	mode, fam := os.Args[1], os.Args[2]
@@ -126,6 +126,20 @@ func main() {
 		}
 		p.rng = rand.New(rand.NewSource(p.seed))
 		f.gen(p, func(lhs string, nontrivial bool) { cases = append(cases, caseIn{lhs, nontrivial}) })
+	case "cases":
+		// the generated case lines only, nothing is run (used by check to look for the case on which a run of the harness died)
+		p := &params{seed: atoi64(os.Args[4]), tier: "quick"}
+		if len(os.Args) > 5 {
+			p.tier = os.Args[5]
+		}
+		p.rng = rand.New(rand.NewSource(p.seed))
+		of, err := os.Create(os.Args[3])
+		must(err)
+		w := bufio.NewWriterSize(of, 1<<20)
+		f.gen(p, func(lhs string, nontrivial bool) { fmt.Fprintln(w, lhs) })
+		must(w.Flush())
+		must(of.Close())
+		return
 	case "replay":
 		in, err := os.Open(os.Args[3])
 		must(err)
